@@ -7,3 +7,7 @@ import WowVerif.Props.C08
 #print axioms Wv.C08.rle_length
 #print axioms Wv.C08.rle_output_bounded
 #print axioms Wv.C08.bsd0_output_bounded
+#print axioms Wv.C08.filemap_is_first_match
+#print axioms Wv.C08.listing_is_union
+#print axioms Wv.C08.patched_read_verified
+#print axioms Wv.C08.unreadable_patch_is_error
